@@ -242,6 +242,215 @@ theorem general_disjoint_empty (dstCand : List (Int × Int)) (dstDisjoint : Int 
   intro d hd
   simp [h d hd]
 
+
+/-! ## world-space boxes: rounding outward -/
+
+/-- an affine form `a·u + b·v + c` on a box lies between the smallest and the largest of its
+four corner values (any signs of `a`, `b`: mirrored and rotated grids) -/
+theorem affine_form_between (a b c x1 x2 y1 y2 u v : Rat) (hu : x1 ≤ u ∧ u ≤ x2) (hv : y1 ≤ v ∧ v ≤ y2) :
+    min4 (a * x1 + b * y1 + c) (a * x1 + b * y2 + c) (a * x2 + b * y1 + c) (a * x2 + b * y2 + c)
+        ≤ a * u + b * v + c ∧
+    a * u + b * v + c ≤
+      max4 (a * x1 + b * y1 + c) (a * x1 + b * y2 + c) (a * x2 + b * y1 + c) (a * x2 + b * y2 + c) := by
+  have m := min4_le (a * x1 + b * y1 + c) (a * x1 + b * y2 + c) (a * x2 + b * y1 + c) (a * x2 + b * y2 + c)
+  have M := le_max4 (a * x1 + b * y1 + c) (a * x1 + b * y2 + c) (a * x2 + b * y1 + c) (a * x2 + b * y2 + c)
+  rcases le_total 0 a with ha | ha <;> rcases le_total 0 b with hb | hb
+  · have h1 := mul_le_mul_of_nonneg_left hu.1 ha; have h2 := mul_le_mul_of_nonneg_left hu.2 ha
+    have h3 := mul_le_mul_of_nonneg_left hv.1 hb; have h4 := mul_le_mul_of_nonneg_left hv.2 hb
+    exact ⟨by linarith [m.1], by linarith [M.2.2.2]⟩
+  · have h1 := mul_le_mul_of_nonneg_left hu.1 ha; have h2 := mul_le_mul_of_nonneg_left hu.2 ha
+    have h3 := mul_le_mul_of_nonpos_left hv.1 hb; have h4 := mul_le_mul_of_nonpos_left hv.2 hb
+    exact ⟨by linarith [m.2.1], by linarith [M.2.2.1]⟩
+  · have h1 := mul_le_mul_of_nonpos_left hu.1 ha; have h2 := mul_le_mul_of_nonpos_left hu.2 ha
+    have h3 := mul_le_mul_of_nonneg_left hv.1 hb; have h4 := mul_le_mul_of_nonneg_left hv.2 hb
+    exact ⟨by linarith [m.2.2.1], by linarith [M.2.1]⟩
+  · have h1 := mul_le_mul_of_nonpos_left hu.1 ha; have h2 := mul_le_mul_of_nonpos_left hu.2 ha
+    have h3 := mul_le_mul_of_nonpos_left hv.1 hb; have h4 := mul_le_mul_of_nonpos_left hv.2 hb
+    exact ⟨by linarith [m.2.2.2], by linarith [M.1]⟩
+
+/-- the corner bounding box of an affine image contains the image of every point of the box -/
+theorem mapCorners_affine_contains (A : Aff) (b : BBox) (u v : Rat)
+    (hu : b.x1 ≤ u ∧ u ≤ b.x2) (hv : b.y1 ≤ v ∧ v ≤ b.y2) :
+    ((b.mapCorners A.apply).x1 ≤ (A.apply (u, v)).1 ∧ (A.apply (u, v)).1 ≤ (b.mapCorners A.apply).x2) ∧
+    ((b.mapCorners A.apply).y1 ≤ (A.apply (u, v)).2 ∧ (A.apply (u, v)).2 ≤ (b.mapCorners A.apply).y2) := by
+  have hx := affine_form_between A.a A.b A.c b.x1 b.x2 b.y1 b.y2 u v hu hv
+  have hy := affine_form_between A.d A.e A.f b.x1 b.x2 b.y1 b.y2 u v hu hv
+  simp only [BBox.mapCorners, Aff.apply]
+  exact ⟨hx, hy⟩
+
+/-- **range_superset, world space (same CRS; any invertible pixel-to-world affine – north-up,
+mirrored, rotated)**: `range_from_bbox` of a box carrying the raster's CRS succeeds, and every
+tile owning an image pixel `(jx, jy)` whose open unit square contains the pixel coordinates
+`~W · (u, v)` of some point `(u, v)` of the box is inside the returned ranges (the box is
+rounded outward, never inward). -/
+theorem range_superset_world (g : GBT) (hg : g.WF) (W : Aff) (hW : W.det ≠ 0) (b : BBox)
+    (rc : Int × Int) (hr : 0 ≤ rc.1 ∧ rc.1 < g.tiles.y.count) (hc : 0 ≤ rc.2 ∧ rc.2 < g.tiles.x.count)
+    (sy sx : NSlice) (gy : g.tiles.y.getItem (.idx rc.1) = .ok sy)
+    (gx : g.tiles.x.getItem (.idx rc.2) = .ok sx)
+    (jy jx : Int) (my : sy.Has jy) (mx : sx.Has jx) (bjy : 0 ≤ jy ∧ jy < g.ny) (bjx : 0 ≤ jx ∧ jx < g.nx)
+    (u v : Rat) (hu : b.x1 ≤ u ∧ u ≤ b.x2) (hv : b.y1 ≤ v ∧ v ≤ b.y2)
+    (hx : (jx : Rat) < (W.inv.apply (u, v)).1 ∧ (W.inv.apply (u, v)).1 < jx + 1)
+    (hy : (jy : Rat) < (W.inv.apply (u, v)).2 ∧ (W.inv.apply (u, v)).2 < jy + 1) :
+    ∃ r1 r2 c1 c2, rangeFromBBoxWorld g W id b = .ok ((r1, r2), (c1, c2)) ∧
+      candidatesWorld g W id b = .ok (product (irange r1 r2) (irange c1 c2)) ∧
+      (r1 ≤ rc.1 ∧ rc.1 ≤ r2) ∧ (c1 ≤ rc.2 ∧ rc.2 ≤ c2) := by
+  have hp : projectBBox W id b = .ok (b.mapCorners W.inv.apply) := by
+    simp only [projectBBox, Aff.inv?, if_neg hW, bind, Except.bind, pure, Except.pure, id]
+  obtain ⟨⟨x1, x2⟩, y1, y2⟩ := mapCorners_affine_contains W.inv b u v hu hv
+  obtain ⟨r1, r2, c1, c2, hrange, hcand, hsup⟩ := range_superset g hg (b.mapCorners W.inv.apply)
+  refine ⟨r1, r2, c1, c2, by simp only [rangeFromBBoxWorld, hp, hrange, bind, Except.bind],
+    by simp only [candidatesWorld, hp, hcand, bind, Except.bind], ?_⟩
+  exact hsup rc ⟨hr, hc, sy, sx, jy, jx, gy, gx, my, mx, bjy, bjx,
+    ⟨by linarith [hy.1], by linarith [hy.2]⟩, ⟨by linarith [hx.1], by linarith [hx.2]⟩⟩
+
+/-- **tiles(geometry) = range ∩ not-disjoint, world space**: the result is exactly the candidates
+of the geometry's bounding box that shapely does not call disjoint. -/
+theorem tiles_geom_world_exact (g : GBT) (W : Aff) (b : BBox) (disjoint : Int × Int → Bool)
+    (c : List (Int × Int)) (hc : candidatesWorld g W id b = .ok c) :
+    tilesGeomWorld g W b disjoint = .ok (c.filter fun idx => !disjoint idx) ∧
+      ∀ rc, rc ∈ (c.filter fun idx => !disjoint idx) ↔ rc ∈ c ∧ disjoint rc = false := by
+  refine ⟨by simp only [tilesGeomWorld, hc, bind, Except.bind, pure, Except.pure], ?_⟩
+  intro rc; simp [List.mem_filter]
+
+/-- a box in a *foreign* CRS: only the four corners are transformed (`bbox.polygon` has no other
+vertices), so what is guaranteed is that the pixel box contains the images of the corners –
+nothing about the curved edges in between (the chord reading of cross-CRS queries; the harness
+samples the bulge, see `curved_queries`). -/
+theorem projectBBox_contains_corners (W : Aff) (hW : W.det ≠ 0) (proj : Rat × Rat → Rat × Rat) (b : BBox)
+    (p : Rat × Rat) (hp : p ∈ b.corners) :
+    ∃ pb, projectBBox W proj b = .ok pb ∧
+      (pb.x1 ≤ (W.inv.apply (proj p)).1 ∧ (W.inv.apply (proj p)).1 ≤ pb.x2) ∧
+      (pb.y1 ≤ (W.inv.apply (proj p)).2 ∧ (W.inv.apply (proj p)).2 ≤ pb.y2) := by
+  have hpb : projectBBox W proj b = .ok (b.mapCorners fun q => W.inv.apply (proj q)) := by
+    simp only [projectBBox, Aff.inv?, if_neg hW, bind, Except.bind, pure, Except.pure]
+  refine ⟨_, hpb, ?_⟩
+  simp only [BBox.corners, List.mem_cons, List.mem_nil_iff, or_false] at hp
+  simp only [BBox.mapCorners]
+  have m := fun a b c d => min4_le a b c d
+  have M := fun a b c d => le_max4 a b c d
+  rcases hp with rfl | rfl | rfl | rfl
+  · exact ⟨⟨(m _ _ _ _).1, (M _ _ _ _).1⟩, (m _ _ _ _).1, (M _ _ _ _).1⟩
+  · exact ⟨⟨(m _ _ _ _).2.1, (M _ _ _ _).2.1⟩, (m _ _ _ _).2.1, (M _ _ _ _).2.1⟩
+  · exact ⟨⟨(m _ _ _ _).2.2.1, (M _ _ _ _).2.2.1⟩, (m _ _ _ _).2.2.1, (M _ _ _ _).2.2.1⟩
+  · exact ⟨⟨(m _ _ _ _).2.2.2, (M _ _ _ _).2.2.2⟩, (m _ _ _ _).2.2.2, (M _ _ _ _).2.2.2⟩
+
+/-! ## rounding direction on mirrored grids (negative relative scale) -/
+
+/-- **negative relative scale**: with `a < 0` the image of the tile's x-range `[x1, x2]` is
+`[a·x2 + c, a·x1 + c]`, and the rounded box is `[⌊a·x2 + c⌋, ⌈a·x1 + c⌉]`: the *far* edge is
+floored and the *near* edge is ceiled – still outward on both sides. -/
+theorem round_negative_scale (A : Aff) (hb : A.b = 0) (ha : A.a < 0) (tb : BBox) (hx : tb.x1 ≤ tb.x2) :
+    (tb.transform A).round.x1 = ((A.a * tb.x2 + A.c).floor : Int) ∧
+    (tb.transform A).round.x2 = ((A.a * tb.x1 + A.c).ceil : Int) := by
+  have h : A.a * tb.x2 ≤ A.a * tb.x1 := mul_le_mul_of_nonpos_left hx (le_of_lt ha)
+  have hmin : min4 (A.a * tb.x1 + A.c) (A.a * tb.x1 + A.c) (A.a * tb.x2 + A.c) (A.a * tb.x2 + A.c) =
+      A.a * tb.x2 + A.c := by
+    unfold min4; rw [min_self, min_self, min_eq_right (by linarith)]
+  have hmax : max4 (A.a * tb.x1 + A.c) (A.a * tb.x1 + A.c) (A.a * tb.x2 + A.c) (A.a * tb.x2 + A.c) =
+      A.a * tb.x1 + A.c := by
+    unfold max4; rw [max_self, max_self, max_eq_left (by linarith)]
+  simp only [BBox.transform, BBox.round, Aff.apply, hb, zero_mul, add_zero]
+  rw [hmin, hmax]
+  exact ⟨rfl, rfl⟩
+
+
+
+
+theorem mapM_ok_of_forall {α β} (f : α → Res β) (g : α → β) (l : List α) (h : ∀ x ∈ l, f x = .ok (g x)) :
+    l.mapM f = .ok (l.map g) := by
+  induction l with
+  | nil => rfl
+  | cons a as ih =>
+    rw [List.mapM_cons, h a (by simp), ih (fun x hx => h x (List.mem_cons_of_mem _ hx))]
+    rfl
+
+/-- candidate list of a box, as a total function (used only to name the result) -/
+def candsOf (g : GBT) (b : BBox) : List (Int × Int) :=
+  match candidates g b with
+  | .ok c => c
+  | .error _ => []
+
+theorem candidates_ok (g : GBT) (hg : g.WF) (b : BBox) :
+    candidates g b = .ok (candsOf g b) ∧ ∀ rc, TileMeets g b rc → rc ∈ candsOf g b := by
+  obtain ⟨r1, r2, c1, c2, _, hc, hsup⟩ := range_superset g hg b
+  have e : candsOf g b = product (irange r1 r2) (irange c1 c2) := by simp only [candsOf, hc]
+  refine ⟨by rw [e]; exact hc, ?_⟩
+  intro rc hm
+  rw [e, mem_product, mem_irange, mem_irange]
+  exact hsup rc hm
+
+/-- **general_deps_complete_ranges** (upgrade of `general_deps_complete_partial`): on the general
+path – rotated / sheared same-CRS grids and different CRSs – with the candidate ranges computed by
+the model itself (`range_from_bbox` on the bounding boxes handed to `tiles`), `grid_intersect`
+succeeds and lists source tile `s` for destination tile `d` whenever
+
+* `d` meets the pixel bounding box `fp` of the (re)projected source footprint and `s` meets the
+  pixel bounding box `ext d` of the (re)projected extent of `d`   (`TileMeets`), and
+* shapely does not call the footprint / `d`, resp. the extent of `d` / `s`, disjoint.
+
+What is still assumed, and why it cannot be discharged here: (1) geometry – that a truly
+overlapping pair satisfies the two `TileMeets` facts, i.e. that the projected footprint / extent
+polygons (pyproj, `footprint(4326, 2)` with its 2 px padding and 100-point densification, the
+4-corner tile extent) *contain* the true overlap region; for same-CRS pairs this is
+`mapCorners_affine_contains`, for different CRSs it depends on the curvature of the projection
+between the sampled vertices (harness: `dense_dep_oracle`, `large_cross_crs`); (2) shapely's
+contract that polygons with a common interior point are not `disjoint`. -/
+theorem general_deps_complete_ranges (dst src : GBT) (hd : dst.WF) (hs : src.WF) (fp : BBox)
+    (dstDisjoint : Int × Int → Bool) (ext : Int × Int → BBox)
+    (srcDisjoint : Int × Int → Int × Int → Bool) (d s : Int × Int)
+    (h1 : TileMeets dst fp d) (h2 : dstDisjoint d = false)
+    (h3 : TileMeets src (ext d) s) (h4 : srcDisjoint d s = false) :
+    ∃ l deps, gridIntersectGeneralR dst src fp dstDisjoint ext srcDisjoint = .ok l ∧
+      (d, deps) ∈ l ∧ s ∈ deps := by
+  obtain ⟨hdc, hdm⟩ := candidates_ok dst hd fp
+  let g : Int × Int → (Int × Int) × List (Int × Int) :=
+    fun d' => (d', (candsOf src (ext d')).filter fun s' => !srcDisjoint d' s')
+  have hm : ((candsOf dst fp).filter fun d' => !dstDisjoint d').mapM (fun d' => do
+      let sc ← candidates src (ext d')
+      return (d', sc.filter fun s' => !srcDisjoint d' s')) =
+      .ok (((candsOf dst fp).filter fun d' => !dstDisjoint d').map g) := by
+    apply mapM_ok_of_forall
+    intro d' _
+    simp only [(candidates_ok src hs (ext d')).1, bind, Except.bind, pure, Except.pure, g]
+  refine ⟨_, (g d).2, by simp only [gridIntersectGeneralR, hdc, bind, Except.bind]; exact hm, ?_, ?_⟩
+  · exact List.mem_map.2 ⟨d, List.mem_filter.2 ⟨hdm d h1, by simp [h2]⟩, rfl⟩
+  · exact List.mem_filter.2 ⟨(candidates_ok src hs (ext d)).2 s h3, by simp [h4]⟩
+
+/-! ## composition with C04: the dependencies partition the needed source pixels -/
+
+/-- **C12 ∘ C04**: on the linear path every source pixel `(jx, jy)` that destination tile `idx`
+needs (its open unit square contains the image of a point of the tile) lies in exactly one source
+tile (C04 `tiles2_partition`), and that tile is among the dependencies of `idx`: the listed
+source tiles split the needed source pixels exactly, none is lost and none is served twice. -/
+theorem linear_deps_partition_needed_pixels (dst src : GBT) (hs : src.WF) (A : Aff)
+    (hb : A.b = 0) (hd : A.d = 0) (idx : Int × Int) (tb : BBox) (htb : pixBBox dst idx = .ok tb)
+    (jy jx : Int) (bjy : 0 ≤ jy ∧ jy < src.ny) (bjx : 0 ≤ jx ∧ jx < src.nx) (u v : Rat)
+    (hu : tb.x1 ≤ u ∧ u ≤ tb.x2) (hv : tb.y1 ≤ v ∧ v ≤ tb.y2)
+    (hx : (jx : Rat) < A.a * u + A.c ∧ A.a * u + A.c < jx + 1)
+    (hy : (jy : Rat) < A.e * v + A.f ∧ A.e * v + A.f < jy + 1) :
+    ∃ l, linearDeps dst src A idx = .ok l ∧
+      ∃! rc : Int × Int, (((0 ≤ rc.1 ∧ rc.1 < src.tiles.y.count) ∧ (0 ≤ rc.2 ∧ rc.2 < src.tiles.x.count)) ∧
+        ∃ sy sx, getItem2 src.tiles (.idx rc.1) (.idx rc.2) = .ok (sy, sx) ∧ sy.Has jy ∧ sx.Has jx) ∧
+        rc ∈ l := by
+  obtain ⟨rc, ⟨hbnd, sy, sx, hget, hyy, hxx⟩, huniq⟩ := tiles2_partition src.tiles hs.y hs.x jy jx
+    (by rw [hs.by_]; exact bjy) (by rw [hs.bx]; exact bjx)
+  have hget' := hget
+  simp only [getItem2, zip2, bind, Except.bind, pure, Except.pure] at hget'
+  cases gy : src.tiles.y.getItem (.idx rc.1) with
+  | error e => rw [gy] at hget'; cases hget'
+  | ok ry =>
+    cases gx : src.tiles.x.getItem (.idx rc.2) with
+    | error e => rw [gy, gx] at hget'; cases hget'
+    | ok rx =>
+      rw [gy, gx] at hget'
+      cases hget'
+      obtain ⟨l, hl, hin⟩ := linear_deps_complete dst src hs A hb hd idx tb htb rc hbnd.1 hbnd.2 sy sx gy gx
+        jy jx hyy hxx bjy bjx u v hu hv hx hy
+      refine ⟨l, hl, rc, ⟨⟨hbnd, sy, sx, hget, hyy, hxx⟩, hin⟩, ?_⟩
+      rintro rc' ⟨h', _⟩
+      exact huniq rc' h'
+
+
 /-! ## hypotheses are satisfiable; the defect F15 in the unrepaired query -/
 
 /-- the 20×20 image of 10×10 tiles used below -/
